@@ -36,6 +36,10 @@ class _Boom(Exception):
     pass
 
 
+class _BoomBase(BaseException):
+    """a callback may also leave with a BaseException (KeyboardInterrupt-like): it must propagate unchanged"""
+
+
 # ----------------------------------------------------------------------------- type descriptors
 # tensor {"t": onnx dtype number, "s": None | [int | str | None, ...]}, {"seq": d}, {"opt": d},
 # None = a Var whose type is unknown.
@@ -133,7 +137,7 @@ class Env:
         dt = self.onnx.helper.tensor_dtype_to_np_dtype(d["t"])
         if d["t"] == 8:
             dt = self.np.dtype(str)
-        return ts.Tensor(dt.type, None if d["s"] is None else tuple(d["s"]))
+        return ts.Tensor(dt.type if d["t"] <= 16 else dt, None if d["s"] is None else tuple(d["s"]))
 
     def from_spox(self, t):
         ts = self.ts
@@ -362,9 +366,10 @@ def make_callback(env, op, ctor, case, role, rec, counters):
         counters[role] = counters.get(role, 0) + 1
         rec.append((role, args))
         if beh == "raises":
-            raise _Boom("callback raised")
+            raise (_BoomBase if variant % 2 else _Boom)("callback raised")
         if beh == "nonIterable":
-            return [None, 5, op.const(1.0), 2.5][variant % 4]
+            # (a 0-d array, bytes and a string are "iterable" for isinstance, but not iterables of Vars)
+            return [None, 5, op.const(1.0), 2.5, env.np.array(1.0), b"ab", "xy"][variant % 7]
         n = cb["n"]
         if beh == "hasNonVar":
             return malformed_result(env, op, ctor, case, cb, args)
@@ -522,7 +527,20 @@ def run_real(env: Env, case, steps=()):
            "fresh": True, "unnamed": True, "steps": [], "step_errors": []}
     with warnings.catch_warnings():
         warnings.simplefilter("ignore")
-        operands = {k: [env.operand(d) for d in v] for k, v in case.get("lists", {}).items()}
+        if case.get("dupvar"):  # one Var object in every slot of its type
+            made = {}
+
+            def mk(d):
+                if d is None:
+                    return env.operand(d)
+                k_ = repr(d)
+                if k_ not in made:
+                    made[k_] = env.operand(d)
+                return made[k_]
+
+            operands = {k: [mk(d) for d in v] for k, v in case.get("lists", {}).items()}
+        else:
+            operands = {k: [env.operand(d) for d in v] for k, v in case.get("lists", {}).items()}
         singles = {k: env.operand(d) for k, v in case.get("singles", {}).items() for d in [v]}
     cbs = {role: make_callback(env, op, ctor, case, role, rec, counters) for role in case["cbs"]}
     if case.get("same_cb"):  # one callable object passed in both roles
@@ -581,7 +599,7 @@ def run_real(env: Env, case, steps=()):
                     outs = f(singles["input_sequence"], operands["additional_inputs"], body=cbs["body"])
             outs = list(outs)
             obs["result"] = ("ok", len(outs))
-        except Exception as e:  # noqa: BLE001
+        except (Exception, _BoomBase) as e:  # noqa: BLE001
             outs = None
             obs["result"] = ("err", type(e).__name__, str(e)[:160])
         delta = {r: counters.get(r, 0) - before.get(r, 0) for r in case["cbs"]}
@@ -923,7 +941,7 @@ def compare(case, obs, m, steps):
     res, mr = obs["result"], m["result"]
     if "err" in mr:
         want = {"TypeError": "TypeError", "AttributeError": "AttributeError", "Other": "_Boom"}[mr["err"]]
-        if not (res[0] == "err" and res[1] == want and obs["stage"] == "pre"):
+        if not (res[0] == "err" and (res[1] == want or (want == "_Boom" and res[1] == "_BoomBase")) and obs["stage"] == "pre"):
             return f"model raises {mr['err']}, real: {res} at stage {obs['stage']}"
     else:
         if obs["stage"] == "pre":
@@ -992,6 +1010,8 @@ def finish_case(case, rng, container=None):
         case["if_cond"] = rng.choice(IF_COND[1:])
     if ctor != "if_" and "opcont" not in case and rng.random() < 0.2:
         case["opcont"] = "tuple"
+    if ctor != "if_" and "dupvar" not in case and rng.random() < 0.15:
+        case["dupvar"] = True
     if ctor != "if_" and "rel" not in case:
         case["rel"] = rng.choice(RELATIONS) if rng.random() < 0.6 else "same"
     cont = container or rng.choice(CONTAINERS_MAIN)
@@ -1029,6 +1049,29 @@ def fallback_resolves():
             if f is not None:
                 res.append((p.stem, c, getattr(f, "__module__", p.stem).rsplit(".", 1)[-1]))
     return res
+
+
+_DTYPES = None
+
+
+def all_dtypes():
+    """ONNX element type numbers the installed onnx + spox can express as a Tensor type."""
+    global _DTYPES
+    if _DTYPES is None:
+        import onnx
+        import spox
+
+        _DTYPES = []
+        for num in range(1, 64):
+            try:
+                onnx.TensorProto.DataType.Name(num)
+                dt = onnx.helper.tensor_dtype_to_np_dtype(num)
+                t = spox.Tensor(dt if num > 16 else (str if num == 8 else dt.type), (2,))
+                if int(onnx.helper.np_dtype_to_tensor_dtype(t.dtype)) == num or num == 8:
+                    _DTYPES.append(num)
+            except Exception:  # noqa: BLE001
+                continue
+    return _DTYPES
 
 
 def gen_cases(ck, info):
@@ -1173,6 +1216,17 @@ def gen_cases(ck, info):
             for n in range(0, 3):
                 if light or ic != "arg":
                     cases.append(finish_case({"mod": mod, "ctor": "if_", "n_if": n, "if_cond": ic}, rng))
+    # ---- every element type the installed onnx defines (pass-through positions must keep the dtype)
+    for dt in all_dtypes():
+        t1, t2 = T(dt, (2,)), T(dt, (2, 3))
+        for mod in defs.get("loop", []):
+            cases.append(finish_case({"mod": mod, "ctor": "loop", "lists": {"v_initial": [t1, {"seq": t2}]}, "rel": "same", "k_extra": 0}, rng))
+        for mod in defs.get("scan", []):
+            cases.append(finish_case({"mod": mod, "ctor": "scan", "lists": {"initial_state_and_scan_inputs": [t1, t2]},
+                                      "ints": {"num_scan_inputs": 1}, "axes": None, "rel": "same", "k_extra": 0}, rng))
+        for mod in defs.get("sequence_map", []):
+            cases.append(finish_case({"mod": mod, "ctor": "sequence_map", "singles": {"input_sequence": {"seq": t1}},
+                                      "lists": {"additional_inputs": [t2, {"seq": t2}]}, "rel": "same", "k_extra": 0}, rng))
     # ---- every container kind at least once per constructor
     base = [c for c in cases if c["ctor"] != "if_" and prescription(c) is not None][:]
     for mod_ctor in {(c["mod"], c["ctor"]) for c in base}:
@@ -1231,7 +1285,7 @@ def gen_cases(ck, info):
             for r2 in roles:
                 cbs[r2]["n"] = n
         else:
-            cbs[r] = {"beh": kind, "n": rng.randrange(1, 4), "variant": rng.randrange(4)}
+            cbs[r] = {"beh": kind, "n": rng.randrange(1, 4), "variant": rng.randrange(7)}
             if kind == "hasNonVar":
                 cbs[r].update(bad=rng.choice(BAD_ELEMS), pos=rng.randrange(3), outer=rng.choice(["list", "tuple", "gen"]))
         c["cbs"] = cbs
@@ -1265,7 +1319,7 @@ def gen_cases(ck, info):
                 c["cbs"] = cbs
                 c["ambient"] = amb
                 cases.append(c)
-            for variant in range(4):  # bare scalars / None / a single Var as the whole result
+            for variant in range(7):  # bare scalars / None / a single Var / 0-d array / bytes / str as the whole result
                 c = dict(rng.choice(sub))
                 roles = list(c["cbs"])
                 cbs = {r2: dict(c["cbs"][r2]) for r2 in roles}
@@ -1612,7 +1666,7 @@ def run_direct_case(env: Env, case):
             warnings.simplefilter("ignore")
             g = sub(obj, fun)
         obs["result"] = ("ok", len(g.requested_results), len(g.requested_arguments or ()))
-    except Exception as e:  # noqa: BLE001
+    except (Exception, _BoomBase) as e:  # noqa: BLE001
         obs["result"] = ("err", type(e).__name__, str(e)[:160])
     for _role, args in rec:
         obs["events"].append([env.from_spox(a.type) if isinstance(a, env.Var) else "non-var" for a in args])
@@ -1670,7 +1724,7 @@ def compare_direct(case, obs, m):
     res, mr = obs["result"], m["result"]
     if "err" in mr:
         want = {"TypeError": "TypeError", "AttributeError": "AttributeError", "Other": "_Boom"}[mr["err"]]
-        if not (res[0] == "err" and res[1] == want):
+        if not (res[0] == "err" and (res[1] == want or (want == "_Boom" and res[1] == "_BoomBase"))):
             return f"model raises {mr['err']}, real: {res}"
     elif not (res[0] == "ok" and res[1] == mr["ok"] and res[2] == mr["nargs"]):
         return f"model: {mr}, real: {res}"
@@ -1891,7 +1945,7 @@ def _run(ck: core.Check, env: Env, info):
         nops = sum(len(v) for v in case.get("lists", {}).values())
         key = (case["mod"], case["ctor"], repr(case.get("lists")), repr(case.get("singles")), repr(case.get("ints")),
                repr(case.get("axes")), repr(case.get("scan_attrs")), case.get("rel"), case.get("ambient"),
-               case.get("M"), repr(case.get("cond")), case.get("if_cond"), case.get("opcont"), repr(sorted((r, c["beh"], c.get("n")) for r, c in case["cbs"].items())))
+               case.get("M"), repr(case.get("cond")), case.get("if_cond"), case.get("opcont"), case.get("dupvar"), repr(sorted((r, c["beh"], c.get("n")) for r, c in case["cbs"].items())))
         ck.count(key if (nops >= 1 or not all_good(case)) else None)
         stats["ctor"][case["ctor"]] = stats["ctor"].get(case["ctor"], 0) + 1
         stats["stage"][obs["stage"]] = stats["stage"].get(obs["stage"], 0) + 1
